@@ -569,7 +569,8 @@ class Proc:
             c.request(method, path, body=body if body else None, headers=headers or {})
             r = c.getresponse()
             data = r.read()
-            return dict(status=r.status, headers={k.title(): v for k, v in r.getheaders()}, body=data)
+            return dict(status=r.status, headers={k.title(): v for k, v in r.getheaders()}, body=data,
+                        warnings=[v for k, v in r.getheaders() if k.lower() == "warning"])
         except Exception as e:       # connection refused / reset: the server is gone
             return dict(status=-1, headers={}, body=b"", err=str(e))
         finally:
@@ -660,7 +661,8 @@ def binary_check(ctx, binp):
     confs = []
     for i in range(n):
         conf = dict(store=rng.choice(["dir", "dir", "mem"]), ro=(rng.random() < 0.15), push=bool(i & 1), delete=bool(i & 2), blobdelete=bool(i & 4),
-                    referrer=bool(i & 8), ratelimit=0, warnings=rng.choice([[], [], ["careful"]]))
+                    referrer=bool(i & 8), ratelimit=0,
+                    warnings=rng.choice([[], [], ["careful"], ["careful, this registry is for tests"], ["one", "two, with a comma", "three"]]))
         if i % 5 == 4:
             # unset flags: the documented defaults
             for k in ("ro", "push", "delete", "blobdelete", "referrer"):
@@ -712,6 +714,13 @@ def binary_check(ctx, binp):
                 break
             if (conf.get("warnings") or []) and "Warning" not in res["headers"]:
                 ctx.violation("--warning given but no Warning header on %s %s" % (r["method"], p), dict(rep, trace=trace), "C19:binary-warning")
+                nbad += 1
+                failed = True
+                break
+            wantw = ['299 - "%s"' % w_ for w_ in (conf.get("warnings") or [])]
+            if res.get("warnings") is not None and res["status"] > 0 and sorted(res["warnings"]) != sorted(wantw):
+                ctx.violation("--warning %s: the Warning headers on %s %s are %s, the configured texts give %s" % (conf.get("warnings"), r["method"], p, res["warnings"], wantw),
+                              dict(rep, trace=trace), "C19:binary-warning-text")
                 nbad += 1
                 failed = True
                 break
